@@ -169,37 +169,14 @@ def rule_prec(crate, repo):
     if len(rows) < 17:
         out.error("anchor missing: operator table in %s (found %d rows)" % (docrel, len(rows)))
         return out
-    # ---- level chain
-    fns = {b["name"]: b for d, b in crate.hir.items() if d.startswith(PARSER)}
-    start = "expression"
-    if start not in fns:
+    # ---- level chain (longest-path depth, see level_chain)
+    lc = level_chain(crate)
+    if lc is None:
         out.error("anchor missing: Parser::expression")
         return out
-    # discover levels: functions reachable from `expression` through Parser methods that return an Expression
-    level_names = set()
-    stack = [start]
-    while stack:
-        x = stack.pop()
-        if x in level_names or x not in fns:
-            continue
-        if "Expression" not in fns[x].get("ret", ""):
-            continue
-        if x in ("parse_binop",):
-            continue
-        level_names.add(x)
-        for n in walk(fns[x]["body"]):
-            if n.get("k") == "MethodCall" and (callee(n) or "").startswith(PARSER):
-                stack.append(callee(n)[len(PARSER):])
-    levels = {nm: analyse_level(crate, fns[nm], level_names) for nm in level_names}
-    # depth: BFS from expression along operand edges (first visit wins)
-    depth = {start: 0}
-    queue = [start]
-    while queue:
-        x = queue.pop(0)
-        for e in levels[x].events:
-            if e[1] == "operand" and e[2] and e[2] not in depth:
-                depth[e[2]] = depth[x] + 1
-                queue.append(e[2])
+    fns, levels, depth = lc
+    start = "expression"
+    level_names = set(levels)
     f = crate.file_of(fns[start])
 
     def find_level(kind, position):
@@ -429,4 +406,129 @@ def rule_oprt(crate):
     out.analysed = {"printed_operators": len(table), "tokenizer_spellings": len(tok), "parser_exact": len(exact), "parser_loose": len(loose)}
     out.floor("printed_operators", len(table), 14)
     out.floor("parser_exact", len(exact), 12)
+    return out
+
+
+# ---------------------------------------------------------------- PARENS
+AST_E = "crate::ast::Expression"
+TYPED_E = "crate::typed_ast::Expression"
+# typed variants that have no parser-level twin of the same name: (typed variant -> ast variant, why)
+PARENS_RENAMES = {
+    "UnitIdentifier": ("Identifier", "created from an Identifier by the prefix transformer"),
+    "CallableCall": ("FunctionCall", "a call whose callee is an expression; same call syntax"),
+    "BinaryOperatorForDate": ("BinaryOperator", "a binary operator on date-times"),
+}
+
+
+def level_chain(crate):
+    fns = {b["name"]: b for d, b in crate.hir.items() if d.startswith(PARSER)}
+    start = "expression"
+    if start not in fns:
+        return None
+    level_names = set()
+    stack = [start]
+    while stack:
+        x = stack.pop()
+        if x in level_names or x not in fns:
+            continue
+        if "Expression" not in fns[x].get("ret", ""):
+            continue
+        if x in ("parse_binop",):
+            continue
+        level_names.add(x)
+        for n in walk(fns[x]["body"]):
+            if n.get("k") == "MethodCall" and (callee(n) or "").startswith(PARSER):
+                stack.append(callee(n)[len(PARSER):])
+    levels = {nm: analyse_level(crate, fns[nm], level_names) for nm in level_names}
+    # depth = length of the LONGEST simple path of operand edges from `expression` (a level that is also reached by a
+    # short cut — `x // f` parses its right side with `call` — still sits where the full chain puts it)
+    succ = {nm: sorted({e[2] for e in levels[nm].events if e[1] == "operand" and e[2]}) for nm in levels}
+    depth = {}
+
+    def dfs(x, d, path):
+        if d > depth.get(x, -1):
+            depth[x] = d
+        for y in succ.get(x, []):
+            if y not in path:
+                dfs(y, d + 1, path | {y})
+
+    dfs(start, 0, {start})
+    return fns, levels, depth
+
+
+def constructed_variants(crate, fn):
+    out = set()
+    for n in walk(fn["body"]):
+        v = None
+        if n.get("k") in ("Struct", "Call"):
+            v = ctor_variant(n)
+        if v and v[0] == AST_E:
+            out.add(v[1])
+    # parse_binop builds BinaryOperator nodes on behalf of its callers
+    if any(x.get("k") == "MethodCall" and (callee(x) or "") == PARSER + "parse_binop" for x in walk(fn["body"])):
+        out.add("BinaryOperator")
+    return out
+
+
+def rule_parens(crate):
+    """The printer may leave a sub-expression unparenthesised in operand position only if the parser builds that kind
+    of expression at (or below) the call level — the levels that bind tighter than every prefix, infix and postfix
+    operator.  Anything built at an operator level (unary minus, factorial, binary operators, if-then-else) printed
+    bare next to another operator is re-read with a different structure (`(3!)!` -> `3!!`)."""
+    from hirlib import pat_variants
+
+    out = RuleOut("PARENS", "sub-expressions printed without parentheses are exactly kinds the parser builds at the call/primary levels")
+    lc = level_chain(crate)
+    wp = crate.find_fn("typed_ast::with_parens")
+    f = crate.file_of(wp)
+    if lc is None:
+        out.error("anchor missing: Parser::expression")
+        return out
+    fns, levels, depth = lc
+    built = {}  # ast variant -> depth of the deepest level that builds it
+    for nm in levels:
+        if nm not in depth:
+            continue
+        for v in constructed_variants(crate, fns[nm]):
+            built[v] = max(built.get(v, -1), depth[nm])
+    if "FunctionCall" not in built:
+        out.error("anchor missing: no parser level builds Expression::FunctionCall")
+        return out
+    threshold = built["FunctionCall"]
+    operator_levels = {v: d for v, d in built.items() if d < threshold}
+    n = 0
+    m = None
+    for x in walk(wp["body"]):
+        if x.get("k") == "Match" and str(x.get("src")) == "Normal":
+            m = x
+            break
+    if m is None:
+        out.error("anchor missing: match in typed_ast::with_parens")
+        return out
+    for a in m["arms"]:
+        vs = pat_variants(a["pat"], TYPED_E)
+        body = peel(a["body"])
+        bare = not any(y.get("k") == "Lit" and isinstance(y.get("lit"), dict) and y["lit"].get("v") == "(" for y in walk(body))
+        af, al = crate.loc(wp, a["pat"])
+        if vs is None:
+            n += 1
+            if bare:
+                out.violation("with_parens:catch-all", af, al, "the catch-all arm of with_parens prints the operand without parentheses")
+            else:
+                out.ok("with_parens:catch-all", af, al, "everything else is parenthesised")
+            continue
+        for v in sorted(vs):
+            n += 1
+            av = PARENS_RENAMES.get(v, (v,))[0]
+            key = "with_parens:%s" % v
+            if not bare:
+                out.ok(key, af, al, "parenthesised")
+            elif av not in built:
+                out.advisory(key, af, al, "printed bare; the parser builds no Expression::%s (not decided)" % av)
+            elif built[av] >= threshold:
+                out.ok(key, af, al, "printed bare; built by the parser at depth %d >= call level %d" % (built[av], threshold))
+            else:
+                out.violation(key, af, al, "Expression::%s is printed without parentheses in operand position, but the parser builds it at an operator level (depth %d, above the call level %d): next to another operator the echoed text is re-read with a different structure (e.g. `(3!)!` echoed as `3!!`)" % (v, built[av], threshold))
+    out.analysed = {"arms": n, "call_level_depth": threshold, "levels": len(depth), "operator_level_variants": sorted(operator_levels)}
+    out.floor("arms", n, 12)
     return out
